@@ -8,6 +8,19 @@ import (
 	"github.com/lindb/lindb/pkg/bufioutil"
 )
 
+// verifFail lets the simulator fail a file-system operation with an I/O error (disk full, EIO) instead of running it.
+var verifFail func(op, path string) error
+
+// VerifSetFSFail sets the I/O error injection of the package's file-system seams (nil = none).
+func VerifSetFSFail(fail func(op, path string) error) { verifFail = fail }
+
+func failFS(op, path string) error {
+	if verifFail == nil {
+		return nil
+	}
+	return verifFail(op, path)
+}
+
 // Simulation hook (build tag verif): lets the simulator observe, and place a
 // process death before, every file-system effect of the version set.
 
@@ -19,10 +32,25 @@ type verifWriter struct {
 
 func (w *verifWriter) Write(b []byte) (int, error) {
 	w.pre("write", w.name)
+	if err := failFS("write", w.name); err != nil {
+		return 0, err
+	}
 	return w.BufioWriter.Write(b)
 }
-func (w *verifWriter) Sync() error  { w.pre("sync", w.name); return w.BufioWriter.Sync() }
-func (w *verifWriter) Flush() error { w.pre("flush", w.name); return w.BufioWriter.Flush() }
+func (w *verifWriter) Sync() error {
+	w.pre("sync", w.name)
+	if err := failFS("sync", w.name); err != nil {
+		return err
+	}
+	return w.BufioWriter.Sync()
+}
+func (w *verifWriter) Flush() error {
+	w.pre("flush", w.name)
+	if err := failFS("flush", w.name); err != nil {
+		return err
+	}
+	return w.BufioWriter.Flush()
+}
 func (w *verifWriter) Close() error { w.pre("close", w.name); return w.BufioWriter.Close() }
 
 // VerifSetFS wraps the package's file-system seams with pre(op, path); nil restores them.
@@ -35,10 +63,16 @@ func VerifSetFS(pre func(op, path string)) {
 	}
 	writeFileFunc = func(name string, data []byte, perm os.FileMode) error {
 		pre("writefile", name)
+		if err := failFS("writefile", name); err != nil {
+			return err
+		}
 		return os.WriteFile(name, data, perm)
 	}
 	renameFunc = func(oldpath, newpath string) error {
 		pre("rename", newpath)
+		if err := failFS("rename", newpath); err != nil {
+			return err
+		}
 		return os.Rename(oldpath, newpath)
 	}
 	newBufferWriterFunc = func(fileName string) (bufioutil.BufioWriter, error) {
